@@ -135,6 +135,8 @@ def hermite_He_der(n, x):
         d/dx[He_n(x)]
 
     """
+    # the derivative is floating point, also on an integer grid (narrow integers would overflow in the recurrence)
+    x = np.asarray(x, dtype=np.result_type(x, 1.0))
     if n == 0:
         return np.zeros_like(x)
     return n * hermite_He(n-1, x)
@@ -166,7 +168,7 @@ def hermite_He_der_seq(ns, x):
     # in use here
     ns = list(ns)
     min_i = 0
-    x = np.asarray(x)  # scalars work, as documented
+    x = np.asarray(x, dtype=np.result_type(x, 1.0))  # scalars work, as documented; floating point also on an integer grid
     # rows hold what the recurrence produces: floats, also for integer coordinates
     out = np.empty((len(ns), *x.shape), dtype=np.result_type(x, 1.0))
     if ns[min_i] == 0:
@@ -338,6 +340,8 @@ def hermite_H_der(n, x):
         d/dx[H_n(x)]
 
     """
+    # the derivative is floating point, also on an integer grid (narrow integers would overflow in the recurrence)
+    x = np.asarray(x, dtype=np.result_type(x, 1.0))
     if n == 0:
         return np.zeros_like(x)
     return 2 * n * hermite_H(n-1, x)
@@ -369,7 +373,7 @@ def hermite_H_der_seq(ns, x):
     # in use here
     ns = list(ns)
     min_i = 0
-    x = np.asarray(x)  # scalars work, as documented
+    x = np.asarray(x, dtype=np.result_type(x, 1.0))  # scalars work, as documented; floating point also on an integer grid
     # rows hold what the recurrence produces: floats, also for integer coordinates
     out = np.empty((len(ns), *x.shape), dtype=np.result_type(x, 1.0))
     if ns[min_i] == 0:
